@@ -65,6 +65,8 @@ let () =
     if ev = EvNone then fail (Printf.sprintf "the model's thread %d (pc %d) has no step" t p);
     cover (Printf.sprintf "p%d" p);
     w := w'; incr steps;
+    (* branch coverage: the pc this step leads to (0: the call returned) *)
+    cover (Printf.sprintf "b%d>%d" p (if idle t then 0 else int_of_z (SemWaitReplay.pc_code !w tn)));
     if int_of_nat (SemWaitReplay.nrets !w) > before then begin
       match SemWaitReplay.last_ret !w with
       | Some ((r, y), near) -> cover (Printf.sprintf "ret%d_why%d%s" (int_of_z r) (int_of_z y) (if near then "_nearer" else ""))
